@@ -32,6 +32,48 @@ pub fn run(rep: &mut Rep) {
         let d = if *k == 0 { depth } else { depth - 1 };
         explore_world(rep, &format!("exh{k}"), d, &move || World::boot(WorldCfg { seed, seed_ids: ids, ..Default::default() }), &a);
     }
+    // identifier pairs: two operations outstanding at once whose packet identifiers share the low byte, share the
+    // high byte, are byte-swapped or differ in one bit - a correlation key that loses or mixes identifier bits shows here
+    let pairs: [(u16, u16); 12] = [(1, 257), (255, 511), (256, 512), (0x0101, 0x0201), (1, 0x8001), (0x00ff, 0xff00), (0x1234, 0x3412), (2, 0x0202), (65535, 255), (0x7fff, 0xffff), (3, 0x0300), (0x0100, 0x0001)];
+    let kinds = [Kind::Pub1, Kind::Pub2, Kind::Sub, Kind::Unsub];
+    let mut idx = 10_000_000u64;
+    rep.note("identifier-pair sweep: every pair of {pub1, pub2, sub, unsub} outstanding together with packet identifiers (via hook H2) sharing the low byte / high byte / byte-swapped / one bit apart, acknowledged in both orders");
+    for ka in kinds {
+        for kb in kinds {
+            for (ida, idb) in pairs {
+                for b_first in [false, true] {
+                    let id = format!("idpair:{}:{}:{ida}:{idb}:{}", ka.name(), kb.name(), b_first as u8);
+                    idx += 1;
+                    if !rep.take(idx, &id) {
+                        continue;
+                    }
+                    let mut w = World::boot(WorldCfg { seed: rep.seed, seed_ids: Some((ida, 7)), ..Default::default() });
+                    let a = w.start(0, ka);
+                    w.settle_check();
+                    w.sim.handles[0].as_ref().unwrap().verif_seed_ids(idb, 900);
+                    let b = w.start(1, kb);
+                    w.settle_check();
+                    let order = if b_first { [b, a] } else { [a, b] };
+                    for stage in [1u8, 2] {
+                        for &op in &order {
+                            if w.ackable().contains(&(op, stage)) {
+                                w.deliver_ack(op, stage, if op == a { 0 } else { 1 }, 1);
+                                w.settle_check();
+                            }
+                        }
+                    }
+                    super::script::finish(&mut w);
+                    rep.add("evaluations", 1);
+                    rep.add("identifier_pairs", 1);
+                    rep.distinct(&(ka, kb, ida, idb, b_first));
+                    if super::harvest(rep, &mut w, &id) == 0 {
+                        rep.sample(|| format!("{id}: both completed with their own acknowledgement"));
+                    }
+                    super::add_counters(rep, &w);
+                }
+            }
+        }
+    }
     let walks = if rep.quick() { 200 } else { 3000 };
     let mut wa = a.clone();
     wa.max_ops = 400;
